@@ -1,4 +1,312 @@
 import Pun.Model.PBoxNum
 import Pun.Lemmas.PBoxFrechet
+import Mathlib.Data.List.Forall2
+import Mathlib.Data.List.Sort
+import Mathlib.Tactic.Linarith
+import Mathlib.Tactic.Ring
+import Mathlib.Algebra.Order.Field.Basic
+/-!
+# Lemmas for C06: the list-form and array-form constructor on ordered bound lists, sorting the
+image of a sorted list under a monotone / antitone map, and the generic "steps are images"
+statements for `numberOp`, `numberOpW`, `unaryTemplate`, `neg`, `recip`.
+
+Everything is in the namespace `Pun.PBox.Num` (own copies of the few sorting facts proved in other
+properties' files, so that no other property's module is imported).
+-/
+set_option linter.unusedSimpArgs false
+set_option linter.unusedVariables false
 namespace Pun.PBox.Num
+open Pun Pun.PBox List
+
+/-- well-formed p-box with `n` steps: both bounds sorted, `left ≤ right` step by step -/
+structure WF (n : Nat) (P : PB) : Prop where
+  lenL : P.left.length = n
+  lenR : P.right.length = n
+  sortedL : P.left.Pairwise (· ≤ ·)
+  sortedR : P.right.Pairwise (· ≤ ·)
+  le : Forall₂ (· ≤ ·) P.left P.right
+
+/-! ## sorting -/
+
+theorem sortR_perm (l : List Rat) : (sortR l).Perm l := List.mergeSort_perm l _
+
+theorem sortR_sorted (l : List Rat) : (sortR l).Pairwise (· ≤ ·) := by
+  have := List.pairwise_mergeSort (le := fun a b : Rat => decide (a ≤ b))
+    (fun a b c h1 h2 => by simp at h1 h2 ⊢; exact le_trans h1 h2)
+    (fun a b => by simp; exact le_total a b) l
+  exact this.imp (fun h => by simpa using h)
+
+/-- the sorted rearrangement of a list is unique -/
+theorem sortR_eq (l m : List Rat) (hp : m.Perm l) (hs : m.Pairwise (· ≤ ·)) : sortR l = m :=
+  ((sortR_perm l).trans hp.symm).eq_of_pairwise' (sortR_sorted l) hs
+
+theorem map_sorted_of_mono (g : Rat → Rat) (p : Rat → Prop) (l : List Rat) (hp : ∀ x ∈ l, p x)
+    (hg : ∀ x y, p x → p y → x ≤ y → g x ≤ g y) (s : l.Pairwise (· ≤ ·)) :
+    (l.map g).Pairwise (· ≤ ·) := by
+  rw [List.pairwise_map]
+  exact s.imp_of_mem (fun ha hb h => hg _ _ (hp _ ha) (hp _ hb) h)
+
+theorem map_rev_sorted_of_anti (g : Rat → Rat) (p : Rat → Prop) (l : List Rat) (hp : ∀ x ∈ l, p x)
+    (hg : ∀ x y, p x → p y → x ≤ y → g y ≤ g x) (s : l.Pairwise (· ≤ ·)) :
+    (l.reverse.map g).Pairwise (· ≤ ·) := by
+  rw [List.pairwise_map, List.pairwise_reverse]
+  exact s.imp_of_mem (fun ha hb h => hg _ _ (hp _ ha) (hp _ hb) h)
+
+/-- sorting the image of a sorted list under a monotone map changes nothing -/
+theorem sortR_map_mono (g : Rat → Rat) (p : Rat → Prop) (l : List Rat) (hp : ∀ x ∈ l, p x)
+    (hg : ∀ x y, p x → p y → x ≤ y → g x ≤ g y) (s : l.Pairwise (· ≤ ·)) :
+    sortR (l.map g) = l.map g :=
+  sortR_of_sorted _ (map_sorted_of_mono g p l hp hg s)
+
+/-- sorting the image of a sorted list under an antitone map reverses it -/
+theorem sortR_map_anti (g : Rat → Rat) (p : Rat → Prop) (l : List Rat) (hp : ∀ x ∈ l, p x)
+    (hg : ∀ x y, p x → p y → x ≤ y → g y ≤ g x) (s : l.Pairwise (· ≤ ·)) :
+    sortR (l.map g) = l.reverse.map g :=
+  sortR_eq _ _ ((List.reverse_perm l).map g) (map_rev_sorted_of_anti g p l hp hg s)
+
+/-! ## ordered pairs of lists -/
+
+theorem forall₂_map_mono (g : Rat → Rat) (p : Rat → Prop)
+    (hg : ∀ x y, p x → p y → x ≤ y → g x ≤ g y) {l r : List Rat} (h : Forall₂ (· ≤ ·) l r)
+    (hl : ∀ x ∈ l, p x) (hr : ∀ x ∈ r, p x) : Forall₂ (· ≤ ·) (l.map g) (r.map g) := by
+  induction h with
+  | nil => exact Forall₂.nil
+  | @cons a b s t hab _ ih =>
+    simp only [List.map_cons]
+    exact Forall₂.cons (hg a b (hl a (by simp)) (hr b (by simp)) hab)
+      (ih (fun x hx => hl x (by simp [hx])) (fun x hx => hr x (by simp [hx])))
+
+theorem forall₂_map_anti (g : Rat → Rat) (p : Rat → Prop)
+    (hg : ∀ x y, p x → p y → x ≤ y → g y ≤ g x) {l r : List Rat} (h : Forall₂ (· ≤ ·) l r)
+    (hl : ∀ x ∈ l, p x) (hr : ∀ x ∈ r, p x) : Forall₂ (· ≤ ·) (r.map g) (l.map g) := by
+  induction h with
+  | nil => exact Forall₂.nil
+  | @cons a b s t hab _ ih =>
+    simp only [List.map_cons]
+    exact Forall₂.cons (hg a b (hl a (by simp)) (hr b (by simp)) hab)
+      (ih (fun x hx => hl x (by simp [hx])) (fun x hx => hr x (by simp [hx])))
+
+theorem forall₂_reverse {l r : List Rat} (h : Forall₂ (· ≤ ·) l r) :
+    Forall₂ (· ≤ ·) l.reverse r.reverse := forall₂_reverse_iff.mpr h
+
+/-- a lower bound of `left` is a lower bound of `right` -/
+theorem forall₂_lb {l r : List Rat} (h : Forall₂ (· ≤ ·) l r) (a : Rat) (hl : ∀ x ∈ l, a < x) :
+    ∀ y ∈ r, a < y := by
+  induction h with
+  | nil => intro y hy; simp at hy
+  | @cons u v s t huv _ ih =>
+    intro y hy
+    rcases List.mem_cons.mp hy with e | e
+    · subst e; exact lt_of_lt_of_le (hl u (by simp)) huv
+    · exact ih (fun x hx => hl x (by simp [hx])) y e
+
+theorem forall₂_ub {l r : List Rat} (h : Forall₂ (· ≤ ·) l r) (a : Rat) (hr : ∀ y ∈ r, y < a) :
+    ∀ x ∈ l, x < a := by
+  induction h with
+  | nil => intro y hy; simp at hy
+  | @cons u v s t huv _ ih =>
+    intro y hy
+    rcases List.mem_cons.mp hy with e | e
+    · subst e; exact lt_of_le_of_lt huv (hr v (by simp))
+    · exact ih (fun x hx => hr x (by simp [hx])) y e
+
+theorem forall₂_lb' {l r : List Rat} (h : Forall₂ (· ≤ ·) l r) (a : Rat) (hl : ∀ x ∈ l, a ≤ x) :
+    ∀ y ∈ r, a ≤ y := by
+  induction h with
+  | nil => intro y hy; simp at hy
+  | @cons u v s t huv _ ih =>
+    intro y hy
+    rcases List.mem_cons.mp hy with e | e
+    · subst e; exact le_trans (hl u (by simp)) huv
+    · exact ih (fun x hx => hl x (by simp [hx])) y e
+
+theorem forall₂_ub' {l r : List Rat} (h : Forall₂ (· ≤ ·) l r) (a : Rat) (hr : ∀ y ∈ r, y ≤ a) :
+    ∀ x ∈ l, x ≤ a := by
+  induction h with
+  | nil => intro y hy; simp at hy
+  | @cons u v s t huv _ ih =>
+    intro y hy
+    rcases List.mem_cons.mp hy with e | e
+    · subst e; exact le_trans huv (hr v (by simp))
+    · exact ih (fun x hx => hr x (by simp [hx])) y e
+
+/-! ## the constructor's left/right switch -/
+
+theorem isIncreasing_of_sorted (l : List Rat) (h : l.Pairwise (· ≤ ·)) : isIncreasing l = true := by
+  induction l with
+  | nil => rfl
+  | cons a t ih =>
+    cases t with
+    | nil => rfl
+    | cons b u =>
+      rw [List.pairwise_cons] at h
+      simp only [isIncreasing, Bool.and_eq_true, decide_eq_true_eq]
+      exact ⟨h.1 b (by simp), ih h.2⟩
+
+/-- lexicographic `>=` of Python lists holds whenever `>=` holds entry by entry -/
+theorem lexGe_of_ge {l r : List Rat} (h : Forall₂ (· ≤ ·) r l) : lexGe l r = true := by
+  induction h with
+  | nil => rfl
+  | @cons b a t s hba _ ih =>
+    unfold lexGe
+    by_cases h1 : a > b
+    · simp [h1]
+    · have : ¬ a < b := not_lt.mpr hba
+      simp [h1, this, ih]
+
+/-- … and when `<=` holds entry by entry it can only hold for equal lists -/
+theorem eq_of_lexGe_of_le {l r : List Rat} (h : Forall₂ (· ≤ ·) l r) (hge : lexGe l r = true) :
+    l = r := by
+  induction h with
+  | nil => rfl
+  | @cons a b s t hab _ ih =>
+    unfold lexGe at hge
+    have hnot : ¬ a > b := not_lt.mpr hab
+    simp only [hnot, if_false] at hge
+    by_cases hlt : a < b
+    · simp [hlt] at hge
+    · simp only [hlt, if_false] at hge
+      rw [le_antisymm hab (not_lt.mp hlt), ih hge]
+
+theorem eq_of_allGe_of_le {l r : List Rat} (h : Forall₂ (· ≤ ·) l r) (hge : allGe l r = true) :
+    l = r := by
+  induction h with
+  | nil => rfl
+  | @cons a b s t hab _ ih =>
+    simp only [allGe, List.zip_cons_cons, List.all_cons, Bool.and_eq_true, decide_eq_true_eq] at hge
+    have : allGe s t = true := by simpa [allGe] using hge.2
+    rw [le_antisymm hab hge.1, ih this]
+
+/-- list-form constructor, bounds in the right order: accepted unchanged -/
+theorem mk_list_le (n : Nat) (l r : List Rat) (hl : l.length = n) (hr : r.length = n)
+    (sl : l.Pairwise (· ≤ ·)) (sr : r.Pairwise (· ≤ ·)) (h : Forall₂ (· ≤ ·) l r) :
+    mk n true l r = .ok ⟨l, r⟩ := by
+  have il := isIncreasing_of_sorted l sl
+  have ir := isIncreasing_of_sorted r sr
+  by_cases hge : lexGe l r = true
+  · have e := eq_of_lexGe_of_le h hge
+    subst e
+    simp [mk, hge, boundSteps, hl, il, bind, Except.bind]
+  · simp [mk, hge, boundSteps, hl, hr, il, ir, bind, Except.bind]
+
+/-- list-form constructor, bounds handed over in the wrong order: exchanged -/
+theorem mk_list_ge (n : Nat) (l r : List Rat) (hl : l.length = n) (hr : r.length = n)
+    (sl : l.Pairwise (· ≤ ·)) (sr : r.Pairwise (· ≤ ·)) (h : Forall₂ (· ≤ ·) r l) :
+    mk n true l r = .ok ⟨r, l⟩ := by
+  have il := isIncreasing_of_sorted l sl
+  have ir := isIncreasing_of_sorted r sr
+  have hge := lexGe_of_ge h
+  simp [mk, hge, boundSteps, hl, hr, il, ir, bind, Except.bind]
+
+/-- array-form constructor, bounds in the right order: accepted unchanged -/
+theorem mk_arr_le (n : Nat) (l r : List Rat) (hl : l.length = n) (hr : r.length = n)
+    (sl : l.Pairwise (· ≤ ·)) (sr : r.Pairwise (· ≤ ·)) (h : Forall₂ (· ≤ ·) l r) :
+    mk n false l r = .ok ⟨l, r⟩ := by
+  have il := isIncreasing_of_sorted l sl
+  have ir := isIncreasing_of_sorted r sr
+  have hlen : l.length = r.length := by omega
+  by_cases hge : allGe l r = true
+  · have e := eq_of_allGe_of_le h hge
+    subst e
+    simp [mk, hge, boundSteps, hl, il, bind, Except.bind]
+  · simp [mk, hlen, hge, boundSteps, hl, hr, il, ir, bind, Except.bind]
+
+/-! ## images of a well-formed p-box -/
+
+theorem wf_map_mono (n : Nat) (P : PB) (h : WF n P) (g : Rat → Rat) (p : Rat → Prop)
+    (hpl : ∀ x ∈ P.left, p x) (hpr : ∀ x ∈ P.right, p x)
+    (hg : ∀ x y, p x → p y → x ≤ y → g x ≤ g y) : WF n ⟨P.left.map g, P.right.map g⟩ :=
+  ⟨by simp [h.lenL], by simp [h.lenR], map_sorted_of_mono g p _ hpl hg h.sortedL,
+    map_sorted_of_mono g p _ hpr hg h.sortedR, forall₂_map_mono g p hg h.le hpl hpr⟩
+
+theorem wf_map_anti (n : Nat) (P : PB) (h : WF n P) (g : Rat → Rat) (p : Rat → Prop)
+    (hpl : ∀ x ∈ P.left, p x) (hpr : ∀ x ∈ P.right, p x)
+    (hg : ∀ x y, p x → p y → x ≤ y → g y ≤ g x) :
+    WF n ⟨P.right.reverse.map g, P.left.reverse.map g⟩ :=
+  ⟨by simp [h.lenR], by simp [h.lenL], map_rev_sorted_of_anti g p _ hpr hg h.sortedR,
+    map_rev_sorted_of_anti g p _ hpl hg h.sortedL,
+    forall₂_map_anti g p hg (forall₂_reverse h.le) (fun x hx => hpl x (by simpa using hx))
+      (fun x hx => hpr x (by simpa using hx))⟩
+
+/-- `pbox_number_ops` with supplied values of an increasing map -/
+theorem numberOpW_mono (n : Nat) (P : PB) (h : WF n P) (g : Rat → Rat) (p : Rat → Prop)
+    (hpl : ∀ x ∈ P.left, p x) (hpr : ∀ x ∈ P.right, p x)
+    (hg : ∀ x y, p x → p y → x ≤ y → g x ≤ g y) :
+    numberOpW n (P.left.map g) (P.right.map g) = .ok ⟨P.left.map g, P.right.map g⟩ := by
+  unfold numberOpW
+  rw [sortR_map_mono g p _ hpl hg h.sortedL, sortR_map_mono g p _ hpr hg h.sortedR]
+  have w := wf_map_mono n P h g p hpl hpr hg
+  exact mk_list_le n _ _ w.lenL w.lenR w.sortedL w.sortedR w.le
+
+/-- `pbox_number_ops` with supplied values of a decreasing map: bounds exchanged, order reversed -/
+theorem numberOpW_anti (n : Nat) (P : PB) (h : WF n P) (g : Rat → Rat) (p : Rat → Prop)
+    (hpl : ∀ x ∈ P.left, p x) (hpr : ∀ x ∈ P.right, p x)
+    (hg : ∀ x y, p x → p y → x ≤ y → g y ≤ g x) :
+    numberOpW n (P.left.map g) (P.right.map g) =
+      .ok ⟨P.right.reverse.map g, P.left.reverse.map g⟩ := by
+  unfold numberOpW
+  rw [sortR_map_anti g p _ hpl hg h.sortedL, sortR_map_anti g p _ hpr hg h.sortedR]
+  have w := wf_map_anti n P h g p hpl hpr hg
+  exact mk_list_ge n _ _ w.lenR w.lenL w.sortedR w.sortedL w.le
+
+theorem numberOp_eq_W (n : Nat) (f : Rat → Rat → Rat) (P : PB) (c : Rat) :
+    numberOp n f P c = numberOpW n (P.left.map (f · c)) (P.right.map (f · c)) := rfl
+
+theorem numberOp_mono (n : Nat) (f : Rat → Rat → Rat) (P : PB) (c : Rat) (h : WF n P)
+    (p : Rat → Prop) (hpl : ∀ x ∈ P.left, p x) (hpr : ∀ x ∈ P.right, p x)
+    (hg : ∀ x y, p x → p y → x ≤ y → f x c ≤ f y c) :
+    numberOp n f P c = .ok ⟨P.left.map (f · c), P.right.map (f · c)⟩ :=
+  numberOpW_mono n P h (f · c) p hpl hpr hg
+
+theorem numberOp_anti (n : Nat) (f : Rat → Rat → Rat) (P : PB) (c : Rat) (h : WF n P)
+    (p : Rat → Prop) (hpl : ∀ x ∈ P.left, p x) (hpr : ∀ x ∈ P.right, p x)
+    (hg : ∀ x y, p x → p y → x ≤ y → f y c ≤ f x c) :
+    numberOp n f P c = .ok ⟨P.right.reverse.map (f · c), P.left.reverse.map (f · c)⟩ :=
+  numberOpW_anti n P h (f · c) p hpl hpr hg
+
+/-- `_unary_template` with the values of an increasing map -/
+theorem unaryTemplate_mono (n : Nat) (P : PB) (h : WF n P) (g : Rat → Rat) (p : Rat → Prop)
+    (hpl : ∀ x ∈ P.left, p x) (hpr : ∀ x ∈ P.right, p x)
+    (hg : ∀ x y, p x → p y → x ≤ y → g x ≤ g y) :
+    unaryTemplate n (P.left.map g) (P.right.map g) = .ok ⟨P.left.map g, P.right.map g⟩ := by
+  have w := wf_map_mono n P h g p hpl hpr hg
+  exact mk_arr_le n _ _ w.lenL w.lenR w.sortedL w.sortedR w.le
+
+/-- `-P`: steps negated, listed in reverse order, bounds exchanged -/
+theorem neg_ok (n : Nat) (P : PB) (h : WF n P) :
+    neg n P = .ok ⟨P.right.reverse.map (- ·), P.left.reverse.map (- ·)⟩ := by
+  have hg : ∀ x y : Rat, True → True → x ≤ y → -y ≤ -x := fun x y _ _ hxy => by linarith
+  have w := wf_map_anti n P h (- ·) (fun _ => True) (fun _ _ => trivial) (fun _ _ => trivial) hg
+  unfold neg
+  rw [sortR_of_sorted _ w.sortedL, sortR_of_sorted _ w.sortedR]
+  exact mk_list_le n _ _ w.lenL w.lenR w.sortedL w.sortedR w.le
+
+theorem neg_wf (n : Nat) (P : PB) (h : WF n P) :
+    WF n ⟨P.right.reverse.map (- ·), P.left.reverse.map (- ·)⟩ :=
+  wf_map_anti n P h (- ·) (fun _ => True) (fun _ _ => trivial) (fun _ _ => trivial)
+    (fun x y _ _ hxy => by linarith)
+
+theorem hasZero_false (l : List Rat) (h : ∀ x ∈ l, x ≠ 0) : hasZero l = false := by
+  unfold hasZero
+  rw [List.any_eq_false]
+  intro x hx
+  simpa using h x hx
+
+/-- `P.reciprocal()` when `1/x` is antitone on the values of `P` (all positive or all negative) -/
+theorem recip_ok (n : Nat) (P : PB) (h : WF n P) (p : Rat → Prop)
+    (hpl : ∀ x ∈ P.left, p x) (hpr : ∀ x ∈ P.right, p x) (hne : ∀ x, p x → x ≠ 0)
+    (hg : ∀ x y : Rat, p x → p y → x ≤ y → 1 / y ≤ 1 / x) :
+    recip n P = .ok ⟨P.right.reverse.map (1 / ·), P.left.reverse.map (1 / ·)⟩ := by
+  have w := wf_map_anti n P h (1 / ·) p hpl hpr hg
+  unfold recip
+  rw [hasZero_false _ (fun x hx => hne x (hpl x hx)), hasZero_false _ (fun x hx => hne x (hpr x hx))]
+  simp only [Bool.or_self, Bool.false_eq_true, if_false]
+  exact mk_arr_le n _ _ w.lenL w.lenR w.sortedL w.sortedR w.le
+
+theorem recip_anti_pos : ∀ x y : Rat, 0 < x → 0 < y → x ≤ y → 1 / y ≤ 1 / x :=
+  fun x y hx _ hxy => one_div_le_one_div_of_le hx hxy
+
+theorem recip_anti_neg : ∀ x y : Rat, x < 0 → y < 0 → x ≤ y → 1 / y ≤ 1 / x :=
+  fun x y hx hy hxy => (one_div_le_one_div_of_neg hy hx).mpr hxy
+
 end Pun.PBox.Num
